@@ -410,6 +410,7 @@ type vScenario struct {
 	blackoutToMs    int
 	readerPauseMs   int // reader sleeps this long before starting to read (zero-window episodes)
 	bothClients     bool
+	lazyAccept bool // the application does not call AcceptStream for a while
 	// handshake mode
 	hsRole   int // 0 client/server, 1 both clients, 2 out-of-band tokens
 	hsFaults []vHsFault
@@ -459,8 +460,15 @@ func vGenScenario(mode string, seed, idx int) *vScenario {
 		}
 	}
 	ns := 1 + r.n(3)
+	if mode == "pr" && r.chance(12) {
+		ns = 17 + r.n(4) // more streams than the accept backlog holds
+		sc.lazyAccept = true
+	}
 	for i := 0; i < ns; i++ {
 		st := vStreamSpec{id: uint16(1 + i*2 + r.n(2)), dir: r.n(2)}
+		if sc.lazyAccept {
+			st.dir = 0
+		}
 		if mode == "transfer" || mode == "shutdown" || mode == "reset" || mode == "api" {
 			// reliable streams; ordering varies
 			st.unordered = r.chance(30)
@@ -507,7 +515,7 @@ func vGenScenario(mode string, seed, idx int) *vScenario {
 		if r.chance(10) {
 			m.ppi = PayloadTypeWebRTCString
 		}
-		if mode == "pr" && r.chance(10) {
+		if (mode == "pr" || mode == "api") && r.chance(10) {
 			m.ppi = PayloadTypeWebRTCDCEP
 		}
 		if r.chance(30) {
@@ -818,14 +826,14 @@ func vLeakedGoroutines() []string {
 // buffer that is too small and arms read deadlines that expire while no data is available.
 func (r *vRun) reader(side int, s *Stream, wg *sync.WaitGroup, bufSize int) {
 	defer wg.Done()
-	api := r.sc.mode == "api"
+	api := r.sc.mode == "api" || (r.sc.mode == "teardown" && r.sc.idx%3 == 0)
 	ar := &vrand{s: uint64(r.sc.seed)*17 + uint64(r.sc.idx)*5 + uint64(s.StreamIdentifier())}
 	if api {
 		bufSize = 1 + ar.n(64)
 	}
 	buf := make([]byte, bufSize)
 	for {
-		if api && ar.chance(30) {
+		if api && ar.chance(40) {
 			_ = s.SetReadDeadline(time.Now().Add(time.Duration(ar.pick(0, 1, 1000, 200000, 5000000)) * time.Microsecond))
 		}
 		n, ppi, err := s.ReadSCTP(buf)
@@ -841,6 +849,8 @@ func (r *vRun) reader(side int, s *Stream, wg *sync.WaitGroup, bufSize int) {
 			}
 			if api && errors.Is(err, os.ErrDeadlineExceeded) {
 				r.logf("e2e rerr %d %d -> deadline", side, s.StreamIdentifier())
+				// the application does something else for a while before it comes back to read again
+				time.Sleep(time.Duration(ar.pick(0, 1000, 50000, 400000, 2000000)) * time.Microsecond)
 				_ = s.SetReadDeadline(time.Time{})
 				continue
 			}
@@ -858,6 +868,9 @@ func (r *vRun) reader(side int, s *Stream, wg *sync.WaitGroup, bufSize int) {
 func (r *vRun) acceptor(side int, wg *sync.WaitGroup, bufSize int) {
 	defer wg.Done()
 	a := r.as[side]
+	if r.sc.lazyAccept {
+		time.Sleep(20 * time.Second)
+	}
 	for {
 		s, err := a.AcceptStream()
 		if err != nil {
